@@ -119,6 +119,8 @@ C14_Solvent(w0, g0) ==
   /\ w0.rew.prevBal <= BankBal(w0, "reward", w0.rew.rdenom)
   /\ DecLe(DecSub(DecOfInt(w0.rew.prevBal), AccSum(w0)), DecOfInt(g0.updates * Cardinality(Accts)))
   /\ g0.claimed <= g0.delivered
+\* the AccruedRewards query reports the whole-unit part of what a claim would pay
+C14_AccruedQuery(w0, o) == IndexSane(w0) => \A a \in Accts : o.accrued[a] = DecFloor(AccruedOf(w0, a))
 C14_Claim(w1, e, w2) ==
   ExecIs(e, "reward", "claim_rewards") =>
     LET u == TopTx(e).sender
